@@ -12,11 +12,13 @@
    The matmul closure is any function on column lists that multiplies flat column j by a matrix [Am j]
    ([col_linear]; the dense closure of a tensor argument is one: [cg_dense_closure_linear]).
    All sizes n, all numbers of columns / batch members C, all iteration limits, all settings: universally
-   quantified.  NOT proved here: the Chebyshev rate 2((sqrt k - 1)/(sqrt k + 1))^j, exactness after n steps,
-   and T = Lanczos matrix of the preconditioned operator (see design_notes/C08.md). *)
+   quantified.  Theorems 10-15 are about REGULAR stretches of a run: loop bodies in which no threshold fires on the
+   column ([run_regular]: not frozen, p^T A p >= eps, r^T z >= eps, so both quotients are exact) — the regime
+   "above the accuracy floor" of the property text; there the run is textbook (preconditioned) CG.
+   NOT proved here: the Chebyshev rate 2((sqrt k - 1)/(sqrt k + 1))^j (see design_notes/C08.md). *)
 From mathcomp Require Import all_ssreflect all_algebra.
 Require Import C08.Model C08.ProofsBase C08.ProofsResidual C08.ProofsColumns C08.ProofsGuards
-               C08.ProofsScaling C08.ProofsTmat C08.ProofsEnergy.
+               C08.ProofsScaling C08.ProofsTmat C08.ProofsEnergy C08.ProofsConjugacy C08.ProofsExact C08.ProofsExample.
 Set Implicit Arguments.
 Unset Strict Implicit.
 Unset Printing Implicit Defensive.
@@ -197,6 +199,211 @@ Theorem cg_anorm_monotone :
   <= energy (Am j) xs (cv (g_n g) (cget (x_ (num_ (nth (u_s0 u) sts i1))) j)).
 Proof. move=> F S g u Am Hp Hl j hj xs Hs Hx He Hnb i1 i2 sts Hi; exact: (energy_pair Hp Hl hj Hs Hx He Hnb Hi). Qed.
 
+(* ------------------------------------------------------------------------------------------------ *)
+(* Regular stretches of a run.  Notation (ProofsExact.v), for a flat column j:
+     rhist S g u k          numeric state k of the run (0 = before the loop, k = after loop body k)
+     xv n j s, rv n j s, zv n j s, pv n j s   column j of result / residual / precond_residual / curr_conjugate_vec
+     regular n mm eps j s   no threshold fires on column j in the loop body executed from s:
+                            has_converged[j] = false, (p^T A p < eps) = false, (r^T z < eps) = false
+     run_regular S g u j K  the first K loop bodies exist and each is regular on column j.
+   A = Am j is the (symmetric) matrix of the matmul closure on column j, M = Mm j that of the preconditioner
+   (symmetric; without a preconditioner u_pre is the identity and M = 1).                              *)
+
+(* 10. Conjugacy: along a regular stretch the residuals are mutually M-orthogonal and the search directions
+       mutually A-conjugate (induction over the iteration count; any n, any K).                         *)
+Theorem cg_conjugacy :
+  forall (F : rcfType) (S : cg_settings F) (g : cg_args F) (u : cg_setup F) (Am Mm : nat -> 'M[F]_(g_n g)),
+  cg_prepare (FA F) S g = Ok u ->
+  col_linear (size (g_rhs g)) Am (u_mm u) -> col_linear (size (g_rhs g)) Mm (u_pre u) ->
+  forall j, (j < size (g_rhs g))%N -> (Am j)^T = Am j -> (Mm j)^T = Mm j -> 0 < g_eps g ->
+  forall K, run_regular S g u j K ->
+  forall i k, (i < k <= K)%N ->
+  sdot (rv (g_n g) j (rhist S g u k)) (Mm j *m rv (g_n g) j (rhist S g u i)) = 0 /\
+  sdot (pv (g_n g) j (rhist S g u k)) (Am j *m pv (g_n g) j (rhist S g u i)) = 0.
+Proof. move=> F S g u Am Mm Hp Hl Hpl j hj Hs Hm He K Hr i k; exact: (conjugacy_run Hp Hl Hpl hj Hs Hm He Hr). Qed.
+
+(* 11. Finite termination: a regular stretch has at most n loop bodies — in exact arithmetic some threshold
+       (freeze or safe division) fires at the latest in loop body n + 1.                                *)
+Theorem cg_finite_termination :
+  forall (F : rcfType) (S : cg_settings F) (g : cg_args F) (u : cg_setup F) (Am Mm : nat -> 'M[F]_(g_n g)),
+  cg_prepare (FA F) S g = Ok u ->
+  col_linear (size (g_rhs g)) Am (u_mm u) -> col_linear (size (g_rhs g)) Mm (u_pre u) ->
+  forall j, (j < size (g_rhs g))%N -> (Am j)^T = Am j -> (Mm j)^T = Mm j -> 0 < g_eps g ->
+  forall K, run_regular S g u j K -> (K <= g_n g)%N.
+Proof. move=> F S g u Am Mm Hp Hl Hpl j hj Hs Hm He K; exact: (regular_at_most_n Hp Hl Hpl hj Hs Hm He). Qed.
+
+(* 12. Exactness at full dimension: after n regular loop bodies the (normalised) iterate solves the system;
+       if A is invertible it is A^-1 b_hat.  (A is not assumed positive definite: if it is not, the hypothesis
+       run_regular fails somewhere.)                                                                     *)
+Theorem cg_exact_at_n :
+  forall (F : rcfType) (S : cg_settings F) (g : cg_args F) (u : cg_setup F) (Am Mm : nat -> 'M[F]_(g_n g)),
+  cg_prepare (FA F) S g = Ok u ->
+  col_linear (size (g_rhs g)) Am (u_mm u) -> col_linear (size (g_rhs g)) Mm (u_pre u) ->
+  forall j, (j < size (g_rhs g))%N -> (Am j)^T = Am j -> (Mm j)^T = Mm j -> 0 < g_eps g ->
+  run_regular S g u j (g_n g) ->
+  Am j *m xv (g_n g) j (rhist S g u (g_n g)) = cv (g_n g) (cget (u_rhs u) j) /\
+  (Am j \in unitmx ->
+   xv (g_n g) j (rhist S g u (g_n g)) = invmx (Am j) *m cv (g_n g) (cget (u_rhs u) j)).
+Proof.
+move=> F S g u Am Mm Hp Hl Hpl j hj Hs Hm He Hr; split.
+  exact: (exact_at_n Hp Hl Hpl hj Hs Hm He Hr).
+exact: (same_limit Hp Hl Hpl hj Hs Hm He Hr).
+Qed.
+
+(* 13. The preconditioner changes only the path, never the limit: two calls that differ only in the
+       `preconditioner` argument (None or any callable that is column-wise a symmetric matrix) have the same
+       iterate after n regular loop bodies each.                                                         *)
+Theorem cg_precond_same_limit :
+  forall (F : rcfType) (S : cg_settings F) (g : cg_args F) (p1 p2 : option (cols F -> cols F))
+         (u1 u2 : cg_setup F) (Am M1 M2 : nat -> 'M[F]_(g_n g)),
+  cg_prepare (FA F) S (with_pre g p1) = Ok u1 -> cg_prepare (FA F) S (with_pre g p2) = Ok u2 ->
+  col_linear (size (g_rhs g)) Am (u_mm u1) -> col_linear (size (g_rhs g)) Am (u_mm u2) ->
+  col_linear (size (g_rhs g)) M1 (u_pre u1) -> col_linear (size (g_rhs g)) M2 (u_pre u2) ->
+  forall j, (j < size (g_rhs g))%N ->
+  (Am j)^T = Am j -> (M1 j)^T = M1 j -> (M2 j)^T = M2 j -> 0 < g_eps g -> Am j \in unitmx ->
+  run_regular S (with_pre g p1) u1 j (g_n g) -> run_regular S (with_pre g p2) u2 j (g_n g) ->
+  xv (g_n g) j (rhist S (with_pre g p1) u1 (g_n g)) = xv (g_n g) j (rhist S (with_pre g p2) u2 (g_n g)).
+Proof.
+move=> F S g p1 p2 u1 u2 Am M1 M2 H1 H2 L1 L2 P1 P2 j hj Hs Hm1 Hm2 He HU R1 R2.
+exact: (same_limit_two H1 H2 L1 L2 P1 P2 hj Hs Hm1 Hm2 He HU R1 R2).
+Qed.
+
+(* 14. Optimality: for positive semi-definite A the iterate after k regular loop bodies minimises the A-norm of
+       the error over  x_0 + span{p_0, .., p_(k-1)}  (the span of the search directions used so far; 14b: it
+       contains the Krylov space of M A started at z_0).  xs is any solution of A xs = b_hat. *)
+Theorem cg_optimal_over_directions :
+  forall (F : rcfType) (S : cg_settings F) (g : cg_args F) (u : cg_setup F) (Am Mm : nat -> 'M[F]_(g_n g)),
+  cg_prepare (FA F) S g = Ok u ->
+  col_linear (size (g_rhs g)) Am (u_mm u) -> col_linear (size (g_rhs g)) Mm (u_pre u) ->
+  forall j, (j < size (g_rhs g))%N -> (Am j)^T = Am j -> (Mm j)^T = Mm j -> 0 < g_eps g ->
+  forall K (xs : 'cV[F]_(g_n g)), run_regular S g u j K ->
+  Am j *m xs = cv (g_n g) (cget (u_rhs u) j) ->
+  (forall v : 'cV[F]_(g_n g), 0 <= sdot v (Am j *m v)) ->
+  forall k (c : 'I_k -> F), (k <= K)%N ->
+  energy (Am j) xs (xv (g_n g) j (rhist S g u k))
+  <= energy (Am j) xs (xv (g_n g) j (rhist S g u 0) + \sum_(i < k) c i *: pv (g_n g) j (rhist S g u i)).
+Proof.
+move=> F S g u Am Mm Hp Hl Hpl j hj Hs Hm He K xs Hr Hx Hpsd k c hk.
+exact: (optimal_run Hp Hl Hpl hj Hs Hm He Hr Hx Hpsd c hk).
+Qed.
+
+(* 14b. ... in particular over the Krylov space: x_k minimises the A-norm of the error over
+        x_0 + span{z_0, (M A) z_0, .., (M A)^(k-1) z_0}  — the first half of the classical convergence proof.  (The
+        second half, bounding min over polynomials by the Chebyshev polynomial on [lambda_min, lambda_max], needs the
+        spectral theorem and is NOT proved.)                                                             *)
+Theorem cg_optimal_over_krylov :
+  forall (F : rcfType) (S : cg_settings F) (g : cg_args F) (u : cg_setup F) (Am Mm : nat -> 'M[F]_(g_n g)),
+  cg_prepare (FA F) S g = Ok u ->
+  col_linear (size (g_rhs g)) Am (u_mm u) -> col_linear (size (g_rhs g)) Mm (u_pre u) ->
+  forall j, (j < size (g_rhs g))%N -> (Am j)^T = Am j -> (Mm j)^T = Mm j -> 0 < g_eps g ->
+  forall K (xs : 'cV[F]_(g_n g)), run_regular S g u j K ->
+  Am j *m xs = cv (g_n g) (cget (u_rhs u) j) ->
+  (forall v : 'cV[F]_(g_n g), 0 <= sdot v (Am j *m v)) ->
+  forall k (c : 'I_k -> F), (k <= K)%N ->
+  energy (Am j) xs (xv (g_n g) j (rhist S g u k))
+  <= energy (Am j) xs (xv (g_n g) j (rhist S g u 0) +
+                       \sum_(i < k) c i *: iter i (fun v => Mm j *m (Am j *m v)) (zv (g_n g) j (rhist S g u 0))).
+Proof.
+move=> F S g u Am Mm Hp Hl Hpl j hj Hs Hm He K xs Hr Hx Hpsd k c hk.
+exact: (optimal_krylov_run Hp Hl Hpl hj Hs Hm He Hr Hx Hpsd c hk).
+Qed.
+
+(* 15. The returned tridiagonal matrix is the Lanczos matrix of the preconditioned operator.  For the q-th
+       tridiagonalised column (flat column col), T its accumulated t_mat slice, L = last_tridiag_iter > 0, and a
+       run that is regular on that column in loop bodies 1 .. L+1:  with the vectors
+           w_k = (-1)^k r_k / sqrt(r_k . z_k)      ([lanczos_vec], k <= L)
+       (i)   W^T M W = I                                   (M-orthonormal),
+       (ii)  T[i,k] = (M w_i)^T A (M w_k)  for all i, k <= L    (T = W^T (M A M) W; equivalently
+             T = Q^T (M^1/2 A M^1/2) Q for the orthonormal Q = M^1/2 W when M is positive definite),
+       (iii) (A M) w_k = T[k+1,k] w_(k+1) + T[k,k] w_k + T[k,k-1] w_(k-1)  for k < L  (Lanczos recurrence),
+       (iv)  w_0 = r_0 / sqrt(r_0 . z_0), and r_0 is the normalised right-hand side when no initial guess is given.
+       By cg_tmat_returned the returned matrix is the leading (L+1) x (L+1) block of T.                    *)
+Theorem cg_tridiag_is_lanczos :
+  forall (F : rcfType) (S : cg_settings F) (g : cg_args F) (u : cg_setup F) (Am Mm : nat -> 'M[F]_(g_n g)),
+  cg_prepare (FA F) S g = Ok u ->
+  col_linear (size (g_rhs g)) Am (u_mm u) -> col_linear (size (g_rhs g)) Mm (u_pre u) -> 0 < g_eps g ->
+  forall q, (q < size (tri_cols (size (g_rhs g)) (g_nc g) (g_n_tridiag g)))%N ->
+  let col := nth 0%N (tri_cols (size (g_rhs g)) (g_nc g) (g_n_tridiag g)) q in
+  (Am col)^T = Am col -> (Mm col)^T = Mm col ->
+  let sf := cg_final (FA F) S g u in
+  let L := last_ (tri_ sf) in
+  let T := nth [::] (tmat_ (tri_ sf)) q in
+  (0 < L)%N ->
+  (forall k, (k <= L)%N -> regular (g_n g) (u_mm u) (g_eps g) col (rhist S g u k)) ->
+  let w := lanczos_vec S g u q in
+  [/\ forall i k, (i <= L)%N -> (k <= L)%N -> sdot (w i) (Mm col *m w k) = (i == k)%:R,
+      forall i k, (i <= L)%N -> (k <= L)%N ->
+        mget (FA F) T i k = sdot (Mm col *m w i) (Am col *m (Mm col *m w k)),
+      forall k, (k < L)%N ->
+        Am col *m (Mm col *m w k)
+        = mget (FA F) T k.+1 k *: w k.+1 + mget (FA F) T k k *: w k
+          + (if k is k'.+1 then mget (FA F) T k k' *: w k' else 0) &
+      w 0%N = (Num.sqrt (rzj col (rhist S g u 0)))^-1 *: rv (g_n g) col (rhist S g u 0) /\
+      (g_x0 g = None -> rv (g_n g) col (rhist S g u 0) = cv (g_n g) (cget (u_rhs u) col))].
+Proof.
+move=> F S g u Am Mm Hp Hl Hpl He q hq col Hs Hm sf L T L0 Hreg w.
+have Hr : run_regular S g u col L.+1 by split; [exact: last_lt_states | move=> k; rewrite ltnS; exact: Hreg].
+split.
+- by move=> i k; apply: (lanczos_vec_orthonormal Hp Hl Hpl He hq Hs Hm Hr).
+- by move=> i k; apply: (T_is_projection Hp Hl Hpl He hq Hs Hm L0 Hr).
+- by move=> k; apply: (T_recurrence Hp Hl Hpl He hq Hs Hm L0 Hr).
+- split; first exact: (lanczos_vec0 Hp Hpl hq Hr).
+  by move=> Hx; apply: (r0_is_rhs Hp Hl (col_lt hq) Hx).
+Qed.
+
+(* 16. ... and at full dimension (last_tridiag_iter + 1 = n, i.e. n regular tridiagonalised loop bodies) its moments
+       are those of the preconditioned operator:  (T^p)[i,k] = (M w_i)^T (A M)^p w_k  for every p; for i = k = 0 this
+       is  e1^T T^p e1 = z^T Ahat^p z  with  Ahat = M^1/2 A M^1/2,  z = M^1/2 w_0  the normalised start vector — the
+       identity  e1^T f(T) e1 = z^T f(Ahat) z  of the property text for every polynomial f (by linearity).  T^p is
+       written  iter p (mulmx T) 1  (no ring structure on 'M_n for a variable n).                              *)
+Theorem cg_tridiag_moments :
+  forall (F : rcfType) (S : cg_settings F) (g : cg_args F) (u : cg_setup F) (Am Mm : nat -> 'M[F]_(g_n g)),
+  cg_prepare (FA F) S g = Ok u ->
+  col_linear (size (g_rhs g)) Am (u_mm u) -> col_linear (size (g_rhs g)) Mm (u_pre u) -> 0 < g_eps g ->
+  forall q, (q < size (tri_cols (size (g_rhs g)) (g_nc g) (g_n_tridiag g)))%N ->
+  let col := nth 0%N (tri_cols (size (g_rhs g)) (g_nc g) (g_n_tridiag g)) q in
+  (Am col)^T = Am col -> (Mm col)^T = Mm col ->
+  let sf := cg_final (FA F) S g u in
+  let L := last_ (tri_ sf) in
+  let T := nth [::] (tmat_ (tri_ sf)) q in
+  (0 < L)%N -> g_n g = L.+1 ->
+  (forall k, (k <= L)%N -> regular (g_n g) (u_mm u) (g_eps g) col (rhist S g u k)) ->
+  let w := lanczos_vec S g u q in
+  forall p (i k : 'I_(g_n g)),
+  (iter p (mulmx (\matrix_(i0 < g_n g, k0 < g_n g) mget (FA F) T i0 k0)) 1%:M) i k
+  = sdot (Mm col *m w i) (iter p (fun v => Am col *m (Mm col *m v)) (w k)).
+Proof.
+move=> F S g u Am Mm Hp Hl Hpl He q hq col Hs Hm sf L T L0 Hfull Hreg w p i k.
+have Hr : run_regular S g u col L.+1 by split; [exact: last_lt_states | move=> k0; rewrite ltnS; exact: Hreg].
+exact: (T_moments Hp Hl Hpl He hq Hs Hm L0 Hr Hfull).
+Qed.
+
+(* 17. Ritz values inside the spectrum: if  lo <= (M v)^T A (M v) / (v^T M v) <= hi  for all v (i.e. the spectrum of the
+       preconditioned operator M^1/2 A M^1/2 lies in [lo, hi], stated without square roots), every eigenvalue of
+       the returned (L+1) x (L+1) matrix lies in [lo, hi].  Any L > 0, not only full dimension.                 *)
+Theorem cg_ritz_values_in_spectrum :
+  forall (F : rcfType) (S : cg_settings F) (g : cg_args F) (u : cg_setup F) (Am Mm : nat -> 'M[F]_(g_n g)),
+  cg_prepare (FA F) S g = Ok u ->
+  col_linear (size (g_rhs g)) Am (u_mm u) -> col_linear (size (g_rhs g)) Mm (u_pre u) -> 0 < g_eps g ->
+  forall q, (q < size (tri_cols (size (g_rhs g)) (g_nc g) (g_n_tridiag g)))%N ->
+  let col := nth 0%N (tri_cols (size (g_rhs g)) (g_nc g) (g_n_tridiag g)) q in
+  (Am col)^T = Am col -> (Mm col)^T = Mm col ->
+  let sf := cg_final (FA F) S g u in
+  let L := last_ (tri_ sf) in
+  let T := nth [::] (tmat_ (tri_ sf)) q in
+  (0 < L)%N ->
+  (forall k, (k <= L)%N -> regular (g_n g) (u_mm u) (g_eps g) col (rhist S g u k)) ->
+  forall lo hi : F,
+  (forall v : 'cV[F]_(g_n g), lo * sdot v (Mm col *m v) <= sdot (Mm col *m v) (Am col *m (Mm col *m v))) ->
+  (forall v : 'cV[F]_(g_n g), sdot (Mm col *m v) (Am col *m (Mm col *m v)) <= hi * sdot v (Mm col *m v)) ->
+  forall (y : 'cV[F]_L.+1) (th : F),
+  (\matrix_(i < L.+1, k < L.+1) mget (FA F) T i k) *m y = th *: y -> y != 0 -> lo <= th <= hi.
+Proof.
+move=> F S g u Am Mm Hp Hl Hpl He q hq col Hs Hm sf L T L0 Hreg lo hi Hlo Hhi y th.
+have Hr : run_regular S g u col L.+1 by split; [exact: last_lt_states | move=> k0; rewrite ltnS; exact: Hreg].
+exact: (T_ritz Hp Hl Hpl He hq Hs Hm L0 Hr Hlo Hhi).
+Qed.
+
 (* the dense closure of a tensor argument (line 164) multiplies column j by the matrix of its batch member *)
 Theorem cg_dense_closure_linear :
   forall (R : comRingType) (dv : R -> R -> R) (sq ab : R -> R) (lt le eq : R -> R -> bool)
@@ -266,5 +473,37 @@ split; first exact: lt_le_trans ltr01 Hc.
 split=> [] [|j] // _; rewrite [g_n g]/= [cget _ _]/= [g_eps g]/= Hn ?mulr1; apply/negbTE; rewrite -leNgt; apply: ltW => //.
 exact: lt_le_trans H10 Hc.
 Qed.
+
+(* the hypotheses of theorems 10-13 (a regular stretch of length K = n > 0, symmetric invertible A, symmetric M) are
+   satisfiable: the 1 x 1 system 2 x = 1 with eps = 1/10, stop_updating_after = 0, max_iter = 1, no preconditioner
+   (ProofsExample.v), over any real closed field.  (Theorems 15-17 need two regular loop bodies, hence n >= 2: next Example.)            *)
+Example cg_regular_run_satisfiable :
+  exists u,
+  [/\ cg_prepare A (ex_S1 F) (ex_g1 F) = Ok u,
+      col_linear (size (g_rhs (ex_g1 F))) (fun j => mx_of 1 (nth [::] (ex_M1 F) (j %/ 1))) (u_mm u),
+      col_linear (size (g_rhs (ex_g1 F))) (fun _ => 1%:M : 'M[F]_(g_n (ex_g1 F))) (u_pre u),
+      [/\ (mx_of 1 (nth [::] (ex_M1 F) (0 %/ 1)))^T = mx_of 1 (nth [::] (ex_M1 F) (0 %/ 1)),
+          (1%:M : 'M[F]_1)^T = 1%:M, mx_of 1 (nth [::] (ex_M1 F) (0 %/ 1)) \in unitmx & 0 < g_eps (ex_g1 F)] &
+      run_regular (ex_S1 F) (ex_g1 F) u 0 (g_n (ex_g1 F))].
+Proof. exact: ex_regular_run. Qed.
+
+(* the hypotheses of theorems 15-17 (L = last_tridiag_iter > 0, full dimension n = L + 1, regular loop bodies 1..L+1 on
+   the tridiagonalised column, symmetric A and M, eps > 0) are satisfiable: the 2 x 2 system [[2,1],[1,2]] x = (1,0),
+   n_tridiag = 1, eps = 1/10, stop_updating_after = 0, max_iter = 3, max_tridiag_iter = 2 (ProofsExample.v), over any
+   real closed field: r_0 = (1,0), alpha_0 = 1/2, r_1 = (0,-1/2), beta_0 = 1/4, p_1 = (1/4,-1/2), p_1^T A p_1 = 3/8. *)
+Example cg_lanczos_run_satisfiable :
+  exists u,
+  [/\ cg_prepare A (ex_S2 F) (ex_g2 F) = Ok u,
+      col_linear (size (g_rhs (ex_g2 F))) (fun j => mx_of 2 (nth [::] (ex_M2 F) (j %/ 1))) (u_mm u),
+      col_linear (size (g_rhs (ex_g2 F))) (fun _ => 1%:M : 'M[F]_(g_n (ex_g2 F))) (u_pre u),
+      [/\ (mx_of 2 (nth [::] (ex_M2 F) (0 %/ 1)))^T = mx_of 2 (nth [::] (ex_M2 F) (0 %/ 1)),
+          (1%:M : 'M[F]_2)^T = 1%:M & 0 < g_eps (ex_g2 F)] &
+      [/\ (0 < size (tri_cols (size (g_rhs (ex_g2 F))) (g_nc (ex_g2 F)) (g_n_tridiag (ex_g2 F))))%N,
+          nth 0%N (tri_cols (size (g_rhs (ex_g2 F))) (g_nc (ex_g2 F)) (g_n_tridiag (ex_g2 F))) 0 = 0%N,
+          (0 < last_ (tri_ (cg_final A (ex_S2 F) (ex_g2 F) u)))%N,
+          g_n (ex_g2 F) = (last_ (tri_ (cg_final A (ex_S2 F) (ex_g2 F) u))).+1 &
+          forall k, (k <= last_ (tri_ (cg_final A (ex_S2 F) (ex_g2 F) u)))%N ->
+            regular (g_n (ex_g2 F)) (u_mm u) (g_eps (ex_g2 F)) 0 (rhist (ex_S2 F) (ex_g2 F) u k)]].
+Proof. exact: ex_lanczos_run. Qed.
 
 End Examples.
